@@ -279,6 +279,9 @@ mut("R06", "conn.go", "	if !c.fromReceived {\n		c.writeResponse(502, EnhancedCod
 mut("R07", "server.go", "	var err error\n	s.locker.Lock()\n	for _, l := range s.listeners {\n		if lerr := l.Close(); lerr != nil && err == nil {\n			err = lerr\n		}\n	}\n\n	for conn := range s.conns {", "	var err error\n	s.locker.Lock()\n	ls := s.listeners\n	for _, l := range ls {\n		if lerr := l.Close(); lerr != nil && err == nil {\n			err = lerr\n		}\n	}\n\n	for conn := range s.conns {", ["C20"], kind="refactor", note="listeners hoisted into a local under the lock")
 mut("R08", "client.go", "	if d.closed {\n		return fmt.Errorf(\"smtp: data writer closed twice\")\n	}", "	if wasClosed := d.closed; wasClosed {\n		return fmt.Errorf(\"smtp: data writer closed twice\")\n	}", ["C16", "C18"], kind="refactor", note="closed flag read into a local first")
 mut("R09", "conn.go", "	c.closed = true\n\n	if c.bdatPipe != nil {\n		c.bdatPipe.CloseWithError(ErrDataReset)\n		c.bdatPipe = nil\n	}\n\n	if c.session != nil {\n		c.session.Logout()\n		c.session = nil\n	}\n\n	return c.conn.Close()\n}", "	c.closed = true\n	c.logout()\n\n	return c.conn.Close()\n}\n\n// logout aborts a transfer in progress and releases the session. The caller holds c.locker.\nfunc (c *Conn) logout() {\n	if c.bdatPipe != nil {\n		c.bdatPipe.CloseWithError(ErrDataReset)\n		c.bdatPipe = nil\n	}\n\n	if c.session != nil {\n		c.session.Logout()\n		c.session = nil\n	}\n}", ["C08", "C20", "C07"], kind="refactor", note="the body of Close extracted into a helper that runs under the same lock")
+mut("R10", "client.go", "	if opts != nil && opts.RequireTLS {\n		if _, ok := c.ext[\"REQUIRETLS\"]; ok {\n			sb.WriteString(\" REQUIRETLS\")\n		} else {\n			return errors.New(\"smtp: server does not support REQUIRETLS\")\n		}\n	}\n	if opts != nil && opts.UTF8 {\n		if _, ok := c.ext[\"SMTPUTF8\"]; ok {\n			sb.WriteString(\" SMTPUTF8\")\n		} else {\n			return errors.New(\"smtp: server does not support SMTPUTF8\")\n		}\n	}", "	if opts != nil && opts.UTF8 {\n		if _, ok := c.ext[\"SMTPUTF8\"]; ok {\n			sb.WriteString(\" SMTPUTF8\")\n		} else {\n			return errors.New(\"smtp: server does not support SMTPUTF8\")\n		}\n	}\n	if opts != nil && opts.RequireTLS {\n		if _, ok := c.ext[\"REQUIRETLS\"]; ok {\n			sb.WriteString(\" REQUIRETLS\")\n		} else {\n			return errors.New(\"smtp: server does not support REQUIRETLS\")\n		}\n	}", ["C14", "C15"], kind="refactor", note="the two independent flag blocks of Client.Mail swapped (parameter order on the wire changes, nothing else)")
+mut("R12", "data.go", "	switch r.state {\n	case stateBeginLine:\n		rest = \".\\r\\n\"\n	case stateDot:\n		rest = \"\\r\\n\"\n	case stateDotCR:\n		rest = \"\\n\"\n	case stateEOF:\n		return true\n	default:\n		return false\n	}", "	if r.state == stateEOF {\n		return true\n	} else if r.state == stateBeginLine {\n		rest = \".\\r\\n\"\n	} else if r.state == stateDot {\n		rest = \"\\r\\n\"\n	} else if r.state == stateDotCR {\n		rest = \"\\n\"\n	} else {\n		return false\n	}", ["C01", "C02", "C06"], kind="refactor", note="switch of skipEndMarker written as an if chain")
+mut("R13", "conn.go", "	if c.server.MaxMessageBytes != 0 && c.bytesReceived+int64(size) > c.server.MaxMessageBytes {", "	chunkSize := int64(size)\n	if c.server.MaxMessageBytes != 0 && c.bytesReceived+chunkSize > c.server.MaxMessageBytes {", ["C05", "C06"], kind="refactor", note="int64(size) hoisted into a local in handleBdat")
 mut("R03", "lengthlimit_reader.go", """	for i, chr := range b[:n] {
 		if chr == '\\n' {""", """	buf := b[:n]
 	for i, chr := range buf {
